@@ -218,7 +218,10 @@ fn run_one(c: &Case) -> Result<(), Failure> {
 					FilterMode::Notch => 0.0,
 					_ => 1.0 / k,
 				};
-				ensure!((at_corner - want_c).abs() <= 0.02 * want_c.max(0.05), "filter-corner-at-requested-frequency", "{mode:?} filter: gain at its {cutoff:.2} Hz corner is {at_corner:.4}, expected {want_c:.4} (1/k, k = {k:.3}) at {sr} Hz");
+				// (a notch of quality 10 at a corner a ten-thousandth of the sample rate is only as deep
+				// as the filter's f32 state allows: -40 dB)
+				let tol_c = if *mode == FilterMode::Notch { 0.01 } else { 0.02 * want_c.max(0.05) };
+				ensure!((at_corner - want_c).abs() <= tol_c, "filter-corner-at-requested-frequency", "{mode:?} filter: gain at its {cutoff:.2} Hz corner is {at_corner:.4}, expected {want_c:.4} (1/k, k = {k:.3}) at {sr} Hz");
 			}
 		}
 		Case::Eq { sr, kind, frequency, gain_db, q, probe, prior } => {
@@ -419,7 +422,8 @@ fn run_one(c: &Case) -> Result<(), Failure> {
 				let want = (level_db - threshold) * (1.0 - 1.0 / ratio);
 				ensure!((reduction - want).abs() <= 0.05 + 0.002 * want.abs(), "compressor-steady-state-gain-reduction", "level {level_db:.2} dB, threshold {threshold:.2} dB, ratio {ratio:.3}: gain reduction settles at {reduction:.4} dB, expected (level - threshold)(1 - 1/ratio) = {want:.4} dB");
 				// attack time constant: the reduction reaches 1 - 1/e of its final value after attack_s
-				if *attack_s * *sr as f64 > 50.0 {
+				// (only where there is a reduction to take a fraction of)
+				if *attack_s * *sr as f64 > 50.0 && reduction.abs() > 0.5 {
 					let k = (*attack_s * *sr as f64).round() as usize;
 					if k < settle {
 						let r_k = db(a as f64) - db(out[k - 1].left as f64);
@@ -460,7 +464,8 @@ fn run_one(c: &Case) -> Result<(), Failure> {
 			let p = (*pan as f64).clamp(-1.0, 1.0);
 			let m = (p + 1.0) / 2.0;
 			let (gl, gr) = if p == 0.0 { (1.0, 1.0) } else { ((1.0 - m).sqrt() * 2f64.sqrt(), m.sqrt() * 2f64.sqrt()) };
-			ensure!((o[0].left as f64 - x.0 as f64 * gl).abs() <= 2e-6 && (o[0].right as f64 - x.1 as f64 * gr).abs() <= 2e-6, "panning-control-equal-power-law", "panning control at {pan}: {x:?} -> {:?}, expected gains ({gl}, {gr})", o[0]);
+			// (near a hard pan the small gain is the square root of an f32 difference: 1e-5 absolute)
+			ensure!((o[0].left as f64 - x.0 as f64 * gl).abs() <= 1e-5 && (o[0].right as f64 - x.1 as f64 * gr).abs() <= 1e-5, "panning-control-equal-power-law", "panning control at {pan}: {x:?} -> {:?}, expected gains ({gl}, {gr})", o[0]);
 		}
 	}
 	Ok(())
